@@ -137,10 +137,15 @@ def m_int(I, args, kwargs):
     if isinstance(v, SReal):
         # truncation towards zero
         return ops.simp_int(z3.If(v.z >= 0, z3.ToInt(v.z), -z3.ToInt(-v.z)))
-    if isinstance(v, (SBytes, SText, Opaque)):
-        if isinstance(v, SBytes):
-            raise PyRaise(TypeError("int() argument must be a string or a number"), implicit=True)
-        raise Undecided("int() of symbolic text")
+    if isinstance(v, SBytes):
+        raise PyRaise(TypeError("int() argument must be a string or a number"), implicit=True)
+    if isinstance(v, SText):
+        parses = z3.Function("parses_as_int", INT, z3.BoolSort())
+        if not e.branch(parses(v.tid)):
+            raise PyRaise(ValueError("invalid literal for int()"), implicit=True, where="int()")
+        return SInt(z3.Function("int_of_text", INT, INT)(v.tid))
+    if isinstance(v, Opaque):
+        raise Undecided("int() of unmodelled text")
     if v is None or isinstance(v, (list, tuple, dict)):
         raise PyRaise(TypeError("int() argument must be a string, a bytes-like object or a real number"),
                       implicit=True)
@@ -158,8 +163,15 @@ def m_float(I, args, kwargs):
         return SReal(zreal(v))
     if isinstance(v, SBytes):
         raise PyRaise(TypeError("float() argument must be a string or a real number"), implicit=True)
-    if isinstance(v, (SText, Opaque)):
-        raise Undecided("float() of symbolic text")
+    if isinstance(v, SText):
+        # A-codec-like: whether a text parses as a number is an uninterpreted fact about it
+        e = I.e
+        parses = z3.Function("parses_as_float", INT, z3.BoolSort())
+        if not e.branch(parses(v.tid)):
+            raise PyRaise(ValueError("could not convert string to float"), implicit=True, where="float()")
+        return SReal(z3.Function("float_of_text", INT, z3.RealSort())(v.tid))
+    if isinstance(v, Opaque):
+        raise Undecided("float() of unmodelled text")
     if v is None or isinstance(v, (list, tuple, dict, bytes, bytearray)):
         raise PyRaise(TypeError("float() argument must be a string or a real number"), implicit=True)
     return _native(I, float, args, kwargs)
@@ -452,7 +464,7 @@ def _mk_bytes(ctor):
     def m(I, args, kwargs):
         e = I.e
         if not args:
-            return ctor()
+            return SBytes.const(b"", True) if mutable else b""
         v = args[0]
         if isinstance(v, SBytes):
             return SBytes(v.arr, v.off, v.ln, mutable)
@@ -477,7 +489,9 @@ def _mk_bytes(ctor):
             return SBytes(arr, z3.IntVal(0), z3.IntVal(len(v)), mutable)
         if is_sym(v) or isinstance(v, Opaque):
             raise PyRaise(TypeError("cannot convert to bytes"), implicit=True)
-        return _native(I, ctor, args, kwargs)
+        r = _native(I, ctor, args, kwargs)
+        # every bytearray created by interpreted code is a symbolic-capable object with Python reference identity
+        return SBytes.const(r, True) if mutable else r
 
     return m
 
@@ -649,31 +663,6 @@ def bs_pack(I, args, kwargs):
     nbytes = (total + 7) // 8
     if any(n == 0 for c, n in items if c not in "pP"):
         raise _foreign("zero-size field")
-    # one 'u' field holding an int without bit-vector view (plus padding): stay in integer arithmetic and tie
-    # only 8-bit vectors to it (wide BV2Int terms make the solver give up)
-    ufields = [(c, n) for c, n in items if c not in "pP"]
-    if len(ufields) == 1 and ufields[0][0] == "u" and len(vals) >= 1 and isinstance(vals[0], SInt) and \
-            vals[0].bv is None and all(c != "P" for c, _ in items):
-        n = ufields[0][1]
-        vz = vals[0].z
-        if not e.branch(z3.And(vz >= 0, vz < (1 << n))):
-            raise _foreign("'u' value out of range")
-        before = 0
-        for c, k in items:
-            if c == "u":
-                break
-            before += k
-        right = 8 * nbytes - before - n  # zero bits to the right of the field
-        T = vz * (1 << right)
-        arr = z3.K(INT, z3.BitVecVal(0, 8))
-        for i in range(nbytes):
-            lo_bit, hi_bit = 8 * (nbytes - 1 - i), 8 * (nbytes - i)
-            if hi_bit <= right or lo_bit >= right + n:
-                continue  # byte holds only padding
-            bi = z3.BitVec(e.newname("pk"), 8)
-            e.assume(z3.BV2Int(bi, False) == (T / (1 << lo_bit)) % 256)
-            arr = z3.Store(arr, i, bi)
-        return SBytes(arr, z3.IntVal(0), z3.IntVal(nbytes))
     # assemble the bit string as a list of bit-vector pieces, MSB first
     pieces = []
     for c, n in items:
@@ -707,6 +696,8 @@ def bs_pack(I, args, kwargs):
                 raise _foreign("bad value type for 'f'")
             pieces.append(I.api.ieee_bits(v, n))
         elif c in "r":
+            if n % 8:
+                raise _foreign("raw field not a multiple of 8 bits (NotImplementedError in bitstruct.c)")
             if not ops.is_bytes_like(v):
                 raise _foreign("bad value type for 'r'")
             b = ops.as_sbytes(v)
@@ -766,17 +757,7 @@ def bs_unpack_from(I, args, kwargs):
         piece = z3.simplify(z3.Extract(hi, hi - n + 1, whole))
         pos += n
         if c == "u":
-            if n <= 8:
-                out.append(ops.from_bv(piece, n))
-            else:
-                # wide field: integer arithmetic over the 8-bit values of the bytes it touches
-                right = W - pos  # bits to the right of the field (pos already advanced)
-                first, last = (W - right - n) // 8, (W - right - 1) // 8
-                G = z3.IntVal(0)
-                for k in range(first, last + 1):
-                    G = G + zint(ops.from_bv(bs[k], 8)) * (1 << (8 * (last - k)))
-                shift = right - 8 * (need - 1 - last)
-                out.append(ops.simp_int((G / (1 << shift)) % (1 << n)))
+            out.append(ops.from_bv(piece, n))
         elif c == "s":
             out.append(SInt(z3.BV2Int(piece, True), (piece, n, True)))
         elif c == "f":
@@ -784,6 +765,8 @@ def bs_unpack_from(I, args, kwargs):
                 raise _foreign("bad float size")
             out.append(I.api.ieee_value(piece, n))
         elif c == "r":
+            if n % 8:
+                raise _foreign("raw field not a multiple of 8 bits (NotImplementedError in bitstruct.c)")
             nb = (n + 7) // 8
             padded = piece if n % 8 == 0 else z3.Concat(piece, z3.BitVecVal(0, 8 - n % 8))
             arr = z3.K(INT, z3.BitVecVal(0, 8))
